@@ -76,7 +76,7 @@ func runC10(r *Run) {
 				d, isC := constInt(ac.Call.Args[1])
 				return isC && d == 1
 			}) {
-				if len(ci.OnTrue.Preds) == 1 && ci.OnTrue.Dominates(b) {
+				if len(ci.OnTrue.Preds) == 1 && blockDominates(ci.OnTrue, b) {
 					ok2 = true
 				}
 			}
